@@ -49,6 +49,7 @@ class Eval:
         self._final_params = []
         self._cur_env = None
         self.loop_args = None     # optional: [element of the 1st for loop met, of the 2nd, ...] to specialise a loop body on one concrete element
+        self.stateful_map_as_loop = False   # opt-in: `it.map(|x| ..)` whose closure mutates captured locals is evaluated as the loop it is
         self.breaks = None        # optional list: (path condition, environment) at every `break` met
         self._alias_root = None
         self.alias = {}           # local id bound by reference into another local -> (that local's id, path): in-place updates are written back
@@ -740,7 +741,7 @@ class Eval:
             self.returns = saved
             self.loops.pop()
             return ("unit",)
-        if m == "map" and len(e["args"]) == 1 and strip(e["args"][0]).get("k") == "Closure" and "Iterator::map" in (callee_generic(e) or "") \
+        if self.stateful_map_as_loop and m == "map" and len(e["args"]) == 1 and strip(e["args"][0]).get("k") == "Closure" and "Iterator::map" in (callee_generic(e) or "") \
                 and any(l_ in env for l_ in self.mutated_locals(strip(e["args"][0])["body"])):
             # `it.map(|x| { ..mutates captured locals..; V })` is `for x in it { ..; out.push(V) }`: the closure runs once per element, in order
             cl = strip(e["args"][0])
